@@ -109,13 +109,13 @@ func init() {
 	registerProp(&PropSpec{
 		ID: "C17", Title: "Whitespace, entity and attribute normalisation preserves meaning",
 		Sel: []Sel{
-			{Pattern: "parse.ReplaceMultipleWhitespace", Levels: "S"}, {Pattern: "parse.replaceEntities", Levels: "S"}, {Pattern: "parse.ReplaceEntities", Levels: "S"},
+			{Pattern: "parse.ReplaceMultipleWhitespace", Levels: "S"}, {Pattern: "parse.replaceEntities", Levels: "SF"}, {Pattern: "parse.ReplaceEntities", Levels: "S"},
 			{Pattern: "html.EscapeAttrVal", Levels: "SF"}, {Pattern: "xml.EscapeAttrVal", Levels: "SF"}, {Pattern: "xml.EscapeCDATAVal", Levels: "SF"},
 		},
 		NotDecided: []string{
-			"decoded-text preservation and idempotence of ReplaceEntities (HTML's entity table is an external oracle)",
+			"decoded-text preservation and idempotence of ReplaceEntities (HTML's entity table is an external oracle); proved is the local guard they rest on: a reference is never decoded to a bare '&' directly in front of a letter, digit or '#'",
 			"ReplaceMultipleWhitespace functional result (every maximal run becomes one space/newline) and ReplaceMultipleWhitespaceAndEntities (its obligations are not discharged: not claimed)",
-			"round trip of the escaped value through the html/xml lexers (the sufficient local condition 'no raw quote inside the quoted value' is proved instead)",
+			"round trip of the escaped value through the html/xml lexers (proved instead are the sufficient local conditions: no raw quote inside a quoted value; an html value is left unquoted only if it contains no ASCII whitespace, quote, backtick, '=', '<' or '>')",
 		},
 		Technique: "deductive verification: in-place compaction index invariants, never-longer postcondition of replaceEntities under the stated map assumption, exact buffer sizing of the Escape* functions by a counting invariant (cnt spec function, lemmas proved by induction), no-raw-quote postcondition; VCs discharged by z3/cvc5",
 	})
